@@ -176,6 +176,11 @@ def _raise_delimited_data_format_error(delimited_path, reader, error):
     raise errors.DataFormatError("cannot parse delimited file: %s" % error, location)
 
 
+#: Maximum number of characters in a single item of delimited data (the biggest value Python's CSV reader
+#: accepts on all platforms).
+_MAX_DELIMITED_ITEM_LENGTH = 2**31 - 1
+
+
 def _as_delimited_keywords(delimited_data_format):
     assert delimited_data_format is not None
     assert delimited_data_format.is_valid
@@ -221,6 +226,10 @@ def delimited_rows(delimited_source, data_format):
         has_opened_delimited_stream = False
     keywords = _as_delimited_keywords(data_format)
     try:
+        # Allow items to be longer than the 131072 characters Python's CSV reader accepts by default. After
+        # all, the writer accepts them too.
+        if csv.field_size_limit() < _MAX_DELIMITED_ITEM_LENGTH:
+            csv.field_size_limit(_MAX_DELIMITED_ITEM_LENGTH)
         delimited_reader = _compat.csv_reader(delimited_stream, **keywords)
         try:
             for row in delimited_reader:
